@@ -312,7 +312,7 @@ Proof.
       unfold poll_active. rewrite Hs. reflexivity.
     + intros w wk sb0 e Hw Hs Ha Hin.
       assert (Ha' : active_at s (sresp sb0) = true).
-      { revert Ha. eapply (active_at_upd s p pl); eauto. reflexivity. }
+      { revert Ha. apply (active_at_upd s p pl (LDone (RBatch b)) (sresp sb0) _ Hp eq_refl); [discriminate|reflexivity]. }
       pose proof (t_wsub s HD _ _ _ Hw Hs) as (_ & Hq1 & _). eapply Forall_forall in Hq1; [|exact Hin].
       destruct (i_held s HJ _ _ _ Hw Hs) as (plr & A & B & C & D & E).
       eapply Hkeep; eauto; [eapply o_wsub; eauto|].
